@@ -22,6 +22,32 @@ def fieldset(req, only=("state", "claim", "epic", "title", "body", "result_path"
     return ",".join(k for k in fields_of(req) if k in only) or "-"
 
 
+def skew_edit(st, r, trace):
+    """lines a collaborator's ergo wrote with a clock that runs ahead (a log merged through git; this machine's clock stepped back since) are now in
+    the log: what an item is depends on the *order of the lines* and never on how their stamps compare with those of later lines.  Two kinds:
+    a retitle (title + body) of a live item, or a claim-and-release of a ready task (crash.add_skewed_history).  Returns True if the log changed."""
+    import datetime, json
+    from . import crash
+    if not st.log_bytes().endswith(b"\n"):
+        return False
+    n0 = len(trace)
+    if r.p(50):
+        crash.add_skewed_history(st, r, trace, max_tasks=1)
+        return len(trace) > n0
+    g = st.graph()
+    if "graph" not in g or not g["graph"]["tasks"]:
+        return False
+    t = r.pick(g["graph"]["tasks"])
+    f = (datetime.datetime.now(datetime.timezone.utc) + datetime.timedelta(minutes=60 + r.n(30))).strftime("%Y-%m-%dT%H:%M:%S.%f000Z")
+    lines = [{"type": "title", "ts": f, "data": {"id": t["id"], "title": "collaborator's title", "ts": f}},
+             {"type": "body", "ts": f, "data": {"id": t["id"], "body": "collaborator's body", "ts": f}}]
+    blob = "".join(json.dumps(l, separators=(",", ":")) + "\n" for l in lines)
+    with open(st.log_path(), "ab") as fh:
+        fh.write(blob.encode())
+    trace.append({"edit": "lines appended to the log: title and body of %s as rewritten by a collaborator whose clock runs an hour ahead" % t["id"], "bytes": blob})
+    return True
+
+
 def run_history(ctx, r, n_cmds, weights, oracle, legacy=None, prelude=None, gen_fn=None):
     """returns the trace; stops at the first tie break or violation.  legacy=None: one history in seven runs on a store whose log still has the
     old name `events.jsonl` (every command must read and write that same file)"""
@@ -33,6 +59,7 @@ def run_history(ctx, r, n_cmds, weights, oracle, legacy=None, prelude=None, gen_
     try:
         pre = None
         diverged = False
+        skews = 0
         for i in range(n_cmds):
             if i and r.p(4) and st.log_bytes().endswith(b"\n"):
                 # another writer was killed in the middle of its write: the log now ends in a fragment without newline (readers skip it, the
@@ -50,6 +77,12 @@ def run_history(ctx, r, n_cmds, weights, oracle, legacy=None, prelude=None, gen_
                     with open(st.log_path(), "wb") as f:
                         f.write(data[:-1])
                     trace.append({"edit": "final newline of the log removed (the last line stays a complete event)"})
+            if i and skews < 2 and r.p(6) and skew_edit(st, r, trace):
+                skews += 1
+                pre = None
+                gs = st.graph()
+                if "graph" in gs:
+                    v.update(gs["graph"])
             req, agent = (gen_fn or gen.gen_request)(r, v, weights)
             req = cmdrun.classify_raw(ctx.go, req)
             rec = cmdrun.run_and_compare(st, ctx.model, req, agent, pre_graph=pre)
